@@ -11,7 +11,7 @@ CONSTANTS
 
 
 def run(ctx, chars, maxlen, validity=False, timeout=1500):
-    bindir = ctx.go_build()
+    bindir = ctx.go_build(["./cmd/topicmatch"])
     body = "mc_Chars == %s\nmc_MaxLen == %d\nASSUME DumpAll\n" % (tla_set([tla_str(c) for c in chars]), maxlen)
     cmd = [os.path.join(bindir, "topicmatch")] + (["-validity"] if validity else [])
     res, out, rc = ctx.tlc_piped("TopicStr", body, CFG, cmd, name="TopicStr%d%s" % (maxlen, "v" if validity else ""),
